@@ -411,6 +411,7 @@ class C19Cuckoo(CuckooWorld):
 
 class C19Quotient(QuotientWorld):
     prop = "C19"
+    try_refusals = True
 
     def gen_step(self, rng):
         st = super().gen_step(rng)
